@@ -1,0 +1,167 @@
+//! Verification hooks. Compiled only with `--cfg rce_verif`; with the flag off
+//! this module does not exist and none of its call sites are compiled.
+//!
+//! The hooks only observe: they hand events to a recorder installed by an
+//! external harness, optionally pause at labelled schedule points, and (when
+//! explicitly switched on by the harness) empty the transposition table before a
+//! probe so that an un-cached reference search can be compared exactly.
+
+use std::io::Write;
+use std::sync::atomic::{AtomicBool, AtomicU64, Ordering};
+use std::sync::{Mutex, OnceLock};
+
+use crate::board::transposition_table::TRANSPOSITION_TABLE;
+use crate::board::Board;
+
+/// When set, `before_probe` empties the transposition table.
+pub static CACHE_OFF: AtomicBool = AtomicBool::new(false);
+
+/// Recorded events (one JSON object per entry), when a recorder is installed.
+static EVENTS: Mutex<Option<Vec<String>>> = Mutex::new(None);
+
+type BoardObserver = Box<dyn FnMut(&str, bool, &Board) + Send>;
+static OBSERVER: Mutex<Option<BoardObserver>> = Mutex::new(None);
+
+static SEQ: AtomicU64 = AtomicU64::new(0);
+
+/// Starts recording events (drops anything recorded before).
+pub fn record_start() {
+    *EVENTS.lock().unwrap() = Some(Vec::new());
+}
+
+/// Stops recording and returns what was recorded.
+pub fn record_take() -> Vec<String> {
+    EVENTS.lock().unwrap().take().unwrap_or_default()
+}
+
+pub fn emit(line: String) {
+    if let Some(v) = EVENTS.lock().unwrap().as_mut() {
+        v.push(line);
+    }
+}
+
+pub fn recording() -> bool {
+    EVENTS.lock().unwrap().is_some()
+}
+
+/// Called just before the transposition-table probe of an inner node.
+pub fn before_probe() {
+    if CACHE_OFF.load(Ordering::Relaxed) {
+        TRANSPOSITION_TABLE.write().unwrap().clear();
+    }
+}
+
+/// Called at every transposition-table insert of the search.
+#[allow(clippy::too_many_arguments)]
+pub fn tt_write(
+    site: &str,
+    key: String,
+    score: i16,
+    depth: u8,
+    bound: &str,
+    best: String,
+    nodes: u64,
+    budget: Option<u64>,
+    running: bool,
+    ply: u8,
+) {
+    if !recording() {
+        return;
+    }
+    let budget = budget.map_or(-1i128, i128::from);
+    emit(format!(
+        "{{\"ev\":\"ttwrite\",\"site\":\"{site}\",\"key\":\"{key}\",\"score\":{score},\"depth\":{depth},\"bound\":\"{bound}\",\"best\":\"{best}\",\"nodes\":{nodes},\"budget\":{budget},\"running\":{running},\"ply\":{ply}}}"
+    ));
+}
+
+/// Called inside the blocks that abandon a node because the search was stopped.
+pub fn abort(site: &str, nodes: u64, ply: u8) {
+    if !recording() {
+        return;
+    }
+    emit(format!(
+        "{{\"ev\":\"abort\",\"site\":\"{site}\",\"nodes\":{nodes},\"ply\":{ply}}}"
+    ));
+}
+
+/// Generic search-step event (node entry / return), informational.
+pub fn step(kind: &str, body: String) {
+    if !recording() {
+        return;
+    }
+    emit(format!("{{\"ev\":\"{kind}\",{body}}}"));
+}
+
+/// Installs an observer that is shown the session board after each UCI command.
+pub fn set_observer(f: BoardObserver) {
+    *OBSERVER.lock().unwrap() = Some(f);
+}
+
+pub fn clear_observer() {
+    *OBSERVER.lock().unwrap() = None;
+}
+
+pub fn observe(line: &str, ok: bool, board: &Board) {
+    if let Some(f) = OBSERVER.lock().unwrap().as_mut() {
+        f(line, ok, board);
+    }
+}
+
+struct Sched {
+    dir: std::path::PathBuf,
+    log: Mutex<std::fs::File>,
+}
+
+static SCHED: OnceLock<Option<Sched>> = OnceLock::new();
+
+fn sched_cfg() -> Option<&'static Sched> {
+    SCHED
+        .get_or_init(|| {
+            let dir = std::path::PathBuf::from(std::env::var_os("RCE_VERIF_SCHED")?);
+            let log = std::fs::OpenOptions::new()
+                .create(true)
+                .append(true)
+                .open(dir.join("events"))
+                .ok()?;
+            Some(Sched {
+                dir,
+                log: Mutex::new(log),
+            })
+        })
+        .as_ref()
+}
+
+/// A labelled schedule point. Does nothing unless `RCE_VERIF_SCHED=<dir>` is set.
+/// With it set, appends `seq thread label` to `<dir>/events` and then waits while
+/// `<dir>/hold.<label>` exists (at most 10 s), so that a controller can hold a
+/// chosen interleaving open on the real binary.
+pub fn sched(label: &str) {
+    let Some(cfg) = sched_cfg() else {
+        return;
+    };
+    let seq = SEQ.fetch_add(1, Ordering::SeqCst);
+    let thread = if label.starts_with('S') { "S" } else { "M" };
+    {
+        let mut f = cfg.log.lock().unwrap();
+        let _ = writeln!(f, "{seq} {thread} {label}");
+        let _ = f.flush();
+    }
+    let hold = cfg.dir.join(format!("hold.{label}"));
+    let t0 = std::time::Instant::now();
+    let mut waited = false;
+    while hold.exists() {
+        waited = true;
+        if t0.elapsed().as_secs() >= 10 {
+            let mut f = cfg.log.lock().unwrap();
+            let _ = writeln!(f, "{seq} {thread} TIMEOUT.{label}");
+            break;
+        }
+        std::thread::sleep(std::time::Duration::from_micros(200));
+    }
+    if waited {
+        let seq2 = SEQ.fetch_add(1, Ordering::SeqCst);
+        let mut f = cfg.log.lock().unwrap();
+        let _ = writeln!(f, "{seq2} {thread} released.{label}");
+        let _ = f.flush();
+    }
+}
